@@ -984,7 +984,7 @@ Definition f_length (v : value) : outcome value :=
   | VStr _ s => Ok (VInt W_I64 (lenZ s))
   | VBytes s => Ok (VInt W_I64 (lenZ s))
   | VSeq xs | VTuple xs => Ok (VInt W_I64 (lenZ xs))
-  | VIter LzUnsized _ => Err E_InvalidOperation
+  | VIter LzUnsized (_ :: _) => Err E_InvalidOperation      (* an empty one reports the exact hint (0, Some(0)) *)
   | VIter _ xs => Ok (VInt W_I64 (lenZ xs))
   | VMap kvs => Ok (VInt W_I64 (lenZ kvs))
   | _ => Err E_InvalidOperation
